@@ -378,6 +378,21 @@ int main(int argc, char** argv)
         out.put(u);
       }
     }
+    if (ow && unwind_probe && (op == "omovec" || op == "ounreg")) {
+      // the sandbox is destroyed and created again while owners are alive: the owners are
+      // free-standing objects, their tokens stay theirs (and stay taken) across incarnations
+      tr::Ev c("sbxcycle");
+      try {
+        sb->destroy_sandbox();
+        sb->create_sandbox();
+        sb->get_sandbox_impl()->reported_total = max + 1;
+        c.str("out", "ok");
+      } catch (const std::runtime_error&) {
+        c.str("out", "abort");
+      }
+      c.raw("own", own_projection(*sb, *ow));
+      out.put(c);
+    }
     if (ow && other && xtoken != 0 && (op == "oget" || op == "lookupt" || op == "olookup")) {
       // the same token value presented to the OTHER sandbox
       long long t = xtoken;
